@@ -73,6 +73,20 @@ def cases(tier):
                                 if tu and top in ('absent', 'file'):
                                     continue
                                 out.append({'m': m, 'top': top, 'tu': tu, 'alt': alt, 'loc': loc, 'env': e, 'opt': '-', 'fb': 'off', 'uid': 0})
+        # a file on another volume spelled LINK/../f (the link crosses the volume boundary), and --trash-dir spelled with a trailing slash
+        for m in ('v1', 'home', 'nested'):
+            for e in ('unset', 'xdg'):
+                for fb in ('off', 'both'):
+                    for o in ('-', 'td-same', 'td-same-slash'):
+                        for alt in ('absent', 'dir'):
+                            for tu in (0, 1):
+                                for top in TOPS:
+                                    if tu and top in ('absent', 'file'):
+                                        continue
+                                    out.append({'m': m, 'top': top, 'tu': tu, 'alt': alt, 'loc': 'link-dotdot', 'env': e, 'opt': o, 'fb': fb, 'uid': 0})
+            for loc in LOCS:
+                for top in ('absent', 'sticky'):
+                    out.append({'m': m, 'top': top, 'tu': 0, 'alt': 'absent', 'loc': loc, 'env': 'unset', 'opt': 'td-same-slash', 'fb': 'off', 'uid': 0})
     return out
 
 
@@ -167,6 +181,10 @@ def run_case(c):
     elif loc == 'via-symlink':
         W.file('/mnt/v1/w/f', 'F\n').link('/home/u/w/xl', '/mnt/v1/w')
         arg, E = 'xl/f', '/mnt/v1/w/f'
+    elif loc == 'link-dotdot':
+        W.file('/mnt/v1/f2', 'F\n').link('/home/u/w/xl2', '/mnt/v1/w')
+        arg, E = 'xl2/../f2', '/mnt/v1/f2'          # for the kernel: /mnt/v1/w/.. = /mnt/v1 ; collapsed lexically it would be /home/u/w/f2
+        W.file('/home/u/w/f2', 'look-alike\n')
     elif loc == 'link-to-file-elsewhere':
         W.file('/mnt/v1/w/target', 'T\n').link('/home/u/w/lnkf', '/mnt/v1/w/target')
         arg, E = 'lnkf', '/home/u/w/lnkf'
@@ -175,7 +193,7 @@ def run_case(c):
         arg, E = 'lnkdir/', '/home/u/w/lnkdir'
     argv = ['trash-put']
     T = None
-    if c['opt'] == 'td-same':
+    if c['opt'] in ('td-same', 'td-same-slash'):
         T = E.rsplit('/', 2)[0] + '/mytrash'          # sibling of the parent dir: same volume as the file's parent
     elif c['opt'] == 'td-other':
         T = '/mnt/v2/mytrash' if not E.startswith('/mnt/v2') else '/home/u/mytrash'
@@ -193,7 +211,7 @@ def run_case(c):
         W.link(E.rsplit('/', 2)[0] + '/farlink', '/mnt/v2/far')
         T = E.rsplit('/', 2)[0] + '/farlink/mytrash'                                  # the trash dir's PARENT is a link
     if T:
-        argv += ['--trash-dir', T]
+        argv += ['--trash-dir', T + ('/' if c['opt'] == 'td-same-slash' else '')]
     if c['fb'] in ('flag', 'both', 'flag+env0', 'flag+envyes'):
         argv.append('--home-fallback')
     argv.append(arg)
